@@ -123,6 +123,7 @@ func main() {
 func workerMain(prop string) {
 	runtime.GOMAXPROCS(2)
 	debug.SetGCPercent(400)
+	debug.SetMemoryLimit(3 << 30) // soft: the collector works harder instead of letting 16 workers outgrow the machine
 	if pf := os.Getenv("VERIF_PROF"); pf != "" {
 		f, _ := os.Create(pf)
 		pprof.StartCPUProfile(f)
